@@ -1,0 +1,30 @@
+//go:build verif
+
+// Machine-checked contracts for package http (read by /verif/govc; comments only).
+
+package http
+
+// readHeaders: nh:2 (k~2 v~2){nh}; repeated keys append in wire order; the
+// key is used exactly as decoded (no canonicalisation); total on arbitrary bytes.
+//@ func readHeaders(rb *typed.ReadBuffer, form http.Header)
+//@   requires form != nil
+//@   modifies all
+//@   label each-pair-appended-under-its-own-key
+//@   loop 0 step has(form, k) && len(form[k]) >= 1 && form[k][len(form[k])-1] == v
+//@   loop 0 invariant form != nil
+//@   property C18
+
+//@ func writeHeaders(wb *typed.WriteBuffer, form http.Header)
+//@   modifies all
+//@   property C18
+
+// A varint length above the buffer (including values above 2^63, which wrap
+// negative) is an error, never a panic.
+//@ func readVarintString(rb *typed.ReadBuffer) (s string)
+//@   modifies rb.remaining, rb.err
+//@   ensures old(rb.err) != nil ==> rb.err == old(rb.err) && s == ""
+//@   property C18
+
+//@ func writeVarintString(wb *typed.WriteBuffer, s string)
+//@   modifies all
+//@   property C18
